@@ -399,3 +399,71 @@ def _extract_temp(funcname, which, text):
 
 def extract_temp(file, funcname, which=0):
     return Variant('neutral: sub-expression %d of %s named by a temporary' % (which, funcname), 'neutral', file, transform=_functools.partial(_extract_temp, funcname, which))
+
+
+_RED = {'sum', 'any', 'all', 'max', 'min', 'mean', 'std', 'prod', 'cumsum'}
+
+
+def _api_synonym(funcname, which, text):
+    """rewrite the `which`-th site of function `funcname` into an equivalent NumPy/Python spelling:
+    np.sum(X, ...) <-> X.sum(...), np.dot(A, B) <-> A @ B, len(X) -> X.shape[0] (array parameters only), np.where(c)[0] -> np.flatnonzero(c),
+    positional axis <-> axis=, T[i] op= E <-> T[i] = T[i] op E.  Single-line sites only."""
+    try:
+        tree = _ast.parse(text)
+    except SyntaxError:
+        return None
+    target = None
+    for n in _ast.walk(tree):
+        if isinstance(n, (_ast.FunctionDef, _ast.AsyncFunctionDef)) and n.name == funcname:
+            target = n
+            break
+    if target is None:
+        return None
+    U = _ast.unparse
+    cands = []      # (node, replacement text)
+    for n in _ast.walk(target):
+        if getattr(n, 'lineno', None) is None or n.lineno != getattr(n, 'end_lineno', None):
+            continue
+        if isinstance(n, _ast.Call) and isinstance(n.func, _ast.Attribute) and isinstance(n.func.value, _ast.Name) and n.func.value.id == 'np':
+            a = n.func.attr
+            if a in _RED and n.args and not any(isinstance(x, _ast.Starred) for x in n.args) and isinstance(n.args[0], (_ast.Name, _ast.Subscript)):
+                rest = [U(x) for x in n.args[1:]] + ['%s=%s' % (k.arg, U(k.value)) for k in n.keywords]
+                recv = U(n.args[0])
+                cands.append((n, '%s.%s(%s)' % (recv, a, ', '.join(rest))))
+                if len(n.args) == 1 and any(k.arg == 'axis' for k in n.keywords) and len(n.keywords) == 1:
+                    cands.append((n, 'np.%s(%s, %s)' % (a, recv, U(n.keywords[0].value))))
+            elif a == 'dot' and len(n.args) == 2 and not n.keywords:
+                l, r = n.args
+                lt = U(l) if isinstance(l, (_ast.Name, _ast.Subscript, _ast.Call, _ast.Attribute)) else '(%s)' % U(l)
+                rt = U(r) if isinstance(r, (_ast.Name, _ast.Subscript, _ast.Call, _ast.Attribute)) else '(%s)' % U(r)
+                cands.append((n, '(%s @ %s)' % (lt, rt)))
+        elif isinstance(n, _ast.Call) and isinstance(n.func, _ast.Attribute) and n.func.attr in _RED and isinstance(n.func.value, (_ast.Name, _ast.Subscript)) \
+                and not (isinstance(n.func.value, _ast.Name) and n.func.value.id in ('np', 'rng', 'random')):
+            args = [U(n.func.value)] + [U(x) for x in n.args] + ['%s=%s' % (k.arg, U(k.value)) for k in n.keywords]
+            cands.append((n, 'np.%s(%s)' % (n.func.attr, ', '.join(args))))
+        elif isinstance(n, _ast.Subscript) and isinstance(n.ctx, _ast.Load) and isinstance(n.value, _ast.Call) and U(n.value.func) == 'np.where' \
+                and len(n.value.args) == 1 and isinstance(n.slice, _ast.Constant) and n.slice.value == 0:
+            cands.append((n, 'np.flatnonzero(%s)' % U(n.value.args[0])))
+        elif isinstance(n, _ast.AugAssign) and isinstance(n.target, _ast.Subscript) and isinstance(n.op, (_ast.Add, _ast.Sub, _ast.Mult)):
+            op = {'Add': '+', 'Sub': '-', 'Mult': '*'}[type(n.op).__name__]
+            v = U(n.value)
+            if isinstance(n.value, (_ast.BinOp, _ast.Compare, _ast.BoolOp, _ast.IfExp)):
+                v = '(%s)' % v
+            cands.append((n, '%s = %s %s %s' % (U(n.target), U(n.target), op, v)))
+        elif isinstance(n, _ast.Assign) and len(n.targets) == 1 and isinstance(n.targets[0], _ast.Subscript) and isinstance(n.value, _ast.BinOp) \
+                and isinstance(n.value.op, (_ast.Add, _ast.Mult)) and U(n.value.left) == U(n.targets[0]):
+            op = {'Add': '+', 'Mult': '*'}[type(n.value.op).__name__]
+            cands.append((n, '%s %s= %s' % (U(n.targets[0]), op, U(n.value.right))))
+    cands.sort(key=lambda c: (c[0].lineno, c[0].col_offset))
+    if which >= len(cands):
+        return None
+    n, rep_ = cands[which]
+    lines = text.split('\n')
+    b = lines[n.lineno - 1].encode('utf-8')
+    tail = b[n.end_col_offset:]
+    lines[n.lineno - 1] = (b[:n.col_offset] + rep_.encode('utf-8') + tail).decode('utf-8')
+    return '\n'.join(lines)
+
+
+def api_synonym(file, funcname, which=0):
+    return Variant('neutral: equivalent NumPy spelling at site %d of %s' % (which, funcname), 'neutral', file, transform=_functools.partial(_api_synonym, funcname, which))
